@@ -17,6 +17,9 @@ argument of every op selects it.
   qryrec  <cfg> <uid> <file>                    <record> | ERR
   lvl2    <cfg> <ver> <perm> <0|1> <ts> <file|absent>   <file'> | ERR
   getlvl2 <cfg> <file>                          <val> | ERR
+  hist    <cfg> <file> <step>...               <K|E per step> <.PASSWDS'> <.post'>
+            steps: F[:...] failed write | U:<fn>:<uid>:<val> | R:<uid>:<record> | A:<postlog record>
+  favfile <cfg> <ver> <n> <lastvisit> <attr> <k>  the .fav FavRaw.Save writes for boards 1..n | ERR
   xread   <cfg> <Type> <i> <image>              <val> | ERR      (decode with encoding/binary)
   xover   <cfg> <Type> <i> <image>              <val> | ERR      (struct overlaid on the bytes)
   xwrite  <cfg> <Type> <i> <val> <total>        <image> | ERR    (types.BinWrite of a zero struct with field i set)
@@ -40,6 +43,27 @@ def showOffs (l : List (Nat × Nat)) : String :=
 
 def parseInt (s : String) : Option Int :=
   if s.startsWith "-" then (s.drop 1).toNat?.map (fun n => - (n : Int)) else s.toNat?.map Int.ofNat
+
+def parseStep (tok : String) : Option HStep :=
+  match tok.splitOn ":" with
+  | "F" :: _ => some .fail
+  | ["U", fn, uid, val] =>
+    match parseInt uid, parseHex val with
+    | some u, some v => some (.upd fn u v)
+    | _, _ => none
+  | ["R", uid, r] =>
+    match parseInt uid, parseHex r with
+    | some u, some v => some (.whole u v)
+    | _, _ => none
+  | ["A", r] => (parseHex r).map .app
+  | _ => none
+
+def parseSteps : List String → Option (List HStep)
+  | [] => some []
+  | t :: r => do
+      let s ← parseStep t
+      let rest ← parseSteps r
+      pure (s :: rest)
 
 def stepC01 (_ : Unit) (ws : List String) : Unit × String :=
   let out : String := match ws with
@@ -84,6 +108,18 @@ def stepC01 (_ : Unit) (ws : List String) : Unit × String :=
           match c.offsetConsts.lookup n with
           | some (ty, fld, v) => s!"{ty}.{fld}={v}"
           | none => "none"
+        | "hist", file :: steps =>
+          match parseHex file, parseSteps steps with
+          | some f, some hs =>
+            let (oks, s) := runHist c ⟨f, []⟩ hs
+            let st := String.ofList (oks.map fun b => if b then 'K' else 'E')
+            s!"{if st.isEmpty then "-" else st} {toHex s.passwd} {toHex s.post}"
+          | _, _ => "bad-op"
+        | "favfile", [ver, n, lv, attr, k] =>
+          -- k = how many users save at the same time: the image does not depend on it
+          match ver.toNat?, n.toNat?, lv.toNat?, attr.toNat?, k.toNat? with
+          | some v, some n, some l, some a, some _ => showOpt (favFile c v n l a)
+          | _, _, _, _, _ => "bad-op"
         | "qry", [fn, uid, file] =>
           match parseInt uid, parseHex file with
           | some u, some f => showOpt (passwdRead c fn f u)
